@@ -19,7 +19,7 @@ import itertools
 from .common import *   # noqa: F401,F403
 from pyvc.core import Builtin
 from pyvc.values import real_val
-from . import C11
+from . import C11, C20
 
 P = 'propka.protonate.Protonate'
 LENGTHS = {'C': 1.09, 'N': 1.01, 'O': 0.96, 'F': 0.92, 'Cl': 1.27, 'Br': 1.41, 'I': 1.61, 'S': 1.35}
@@ -120,7 +120,8 @@ def task_add_proton(pr, repo):
                           molecular_container=None)
             heavy = record('c', A, element='C', name='CA')
             at = xyz('at', A, element='N', name='NE2', res_name='HIS', chain_id='A', res_num=57, type='atom',
-                     bonded_atoms=[heavy], number_of_protons_to_add=I('nprot'), conformation_container=conf)
+                     bonded_atoms=[heavy], number_of_protons_to_add=I('nprot'), conformation_container=conf,
+                     residue_label='NE2  57 A', numb=I('numb'))   # every Atom has the label set by __init__
             if prior_h:
                 h0 = record('h0', A, element='H', name='HE2', res_num=57, chain_id='A', bonded_atoms=[at])
                 at.attrs['bonded_atoms'].append(h0)
@@ -222,6 +223,75 @@ def task_counts(pr, repo):
                 pr.explore(ex, thunk, '%s %d bonds %d protons' % (meth, nb, nprot))
 
 
+REPLAY_OB = r"""
+import math, sys, logging
+logging.disable(logging.CRITICAL)
+from propka.atom import Atom
+from propka.protonate import Protonate
+meth = %(meth)r; centre = %(centre)r; model_nbs = %(nbs)r; L = %(L)r
+class Conf:
+    def __init__(self): self.atoms = []
+    def add_atom(self, a): self.atoms.append(a)
+def mk(el, p, name):
+    a = Atom(); a.element = el; a.name = name; a.res_name = 'HIS'; a.chain_id = 'A'; a.res_num = 5; a.type = 'atom'
+    a.x, a.y, a.z = p; a.bonded_atoms = []
+    return a
+def regular(nbs):
+    us = []
+    for q in nbs:
+        d = [q[i] - centre[i] for i in range(3)]; n = math.sqrt(sum(x * x for x in d))
+        if n <= 0.5: return False
+        us.append([x / n for x in d])
+    for i in range(len(us)):
+        for j in range(i + 1, len(us)):
+            c = sum(a * b for a, b in zip(us[i], us[j]))
+            if meth == 'trigonal' and not c > -0.9: return False
+            if meth == 'tetrahedral' and not (-0.5 < c < 0.2): return False
+    return True
+# the solver's model first, then regular geometries (ideal angles, several orientations and bond lengths)
+cands = [model_nbs]
+if meth == 'tetrahedral':
+    T = [(1, 1, 1), (1, -1, -1), (-1, 1, -1), (-1, -1, 1)]
+    for keep in ([0, 1, 2], [1, 2, 3], [0, 2, 3], [3, 1, 0]):
+        for ls in ((1.5, 1.5, 1.5), (1.3, 1.5, 1.8)):
+            cands.append([[centre[i] + T[k][i] / math.sqrt(3) * l for i in range(3)] for k, l in zip(keep, ls)])
+else:
+    for ph in (0.0, 0.9, 2.3):
+        for ls in ((1.4, 1.4), (1.2, 1.6)):
+            cands.append([[centre[0] + l * math.cos(ph + s * 2.0943951), centre[1] + l * math.sin(ph + s * 2.0943951), centre[2]]
+                          for s, l in zip((0, 1), ls)])
+bad = 0
+for nbs in cands:
+    if not regular(nbs):
+        continue
+    at = mk('N', centre, 'NE2'); at.conformation_container = Conf()
+    at.bonded_atoms = [mk('C', q, 'C%%d' %% i) for i, q in enumerate(nbs)]
+    for b in at.bonded_atoms: b.bonded_atoms = [at]
+    at.number_of_protons_to_add = 1; at.steric_number = 3 if meth == 'trigonal' else 4
+    getattr(Protonate(), meth)(at)
+    hs = [a for a in at.bonded_atoms if a.element == 'H']
+    if len(hs) != 1:
+        print('VIOLATION: %%d hydrogens placed for neighbours %%r' %% (len(hs), nbs)); bad += 1; continue
+    h = [hs[0].x - centre[0], hs[0].y - centre[1], hs[0].z - centre[2]]
+    if abs(math.sqrt(sum(x * x for x in h)) - L) > 2e-3:
+        print('VIOLATION: N-H length %%.4f, tabulated %%.3f, neighbours %%r' %% (math.sqrt(sum(x * x for x in h)), L, nbs)); bad += 1
+    for i, q in enumerate(nbs):
+        d = [q[j] - centre[j] for j in range(3)]
+        if sum(a * b for a, b in zip(h, d)) >= -1e-3:
+            print('VIOLATION: new N-H bond makes a non-obtuse angle with existing bond %%d: H-offset %%r, neighbours %%r' %% (i, h, nbs)); bad += 1
+print('violations:', bad)
+sys.exit(1 if bad else 0)
+"""
+
+
+def ob_replay(meth, nb):
+    def build(model):
+        centre = [mval(model, 'at_%s' % c, 0.0) for c in 'xyz']
+        nbs = [[mval(model, 'n%d_%s' % (i, c), 0.0) for c in 'xyz'] for i in range(nb)]
+        return REPLAY_OB % {'meth': meth, 'centre': centre, 'nbs': nbs, 'L': LENGTHS['N']}
+    return build
+
+
 def task_obtuse(pr, repo):
     ex = Executor(repo)
     ex.contracts['propka.vector_algebra.Vector.rescale'] = rescale_contract(repo)
@@ -256,7 +326,8 @@ def task_obtuse(pr, repo):
             dot = lambda a, b: a[0] * b[0] + a[1] * b[1] + a[2] * b[2]     # noqa
             for i in range(nb):
                 d = [nbs[i].attrs[c] - at.attrs[c] for c in 'xyz']
-                ctx.cut('OB[%s]: unit vector %d points along bond %d' % (meth, i, i), And(*[rs[i]['v'][j] == d[j] for j in range(3)]))
+                ctx.cut('OB[%s]: unit vector %d points along bond %d' % (meth, i, i), And(*[rs[i]['v'][j] == d[j] for j in range(3)]),
+                        meta={'replay': ob_replay(meth, nb)})
             # purification: name the dot products (ghost variables with defining equations)
             dd = {}
             for i in range(nb):
@@ -271,13 +342,15 @@ def task_obtuse(pr, repo):
                         ctx.assume(And(v > Sym(real_val(-0.5)), v < Sym(real_val(0.2))))
             h = [p.attrs[c] - at.attrs[c] for c in 'xyz']
             L = Sym(real_val(LENGTHS['N']))
-            ctx.cut('OB[%s]: hydrogen position == atom + rescaled direction' % meth, And(*[h[j] == fin['r'][j] for j in range(3)]))
+            ctx.cut('OB[%s]: hydrogen position == atom + rescaled direction' % meth, And(*[h[j] == fin['r'][j] for j in range(3)]),
+                    meta={'replay': ob_replay(meth, nb)})
             ctx.oblige('OB[%s, %d bonds]: the hydrogen is placed at the tabulated N-H length from the atom' % (meth, nb),
                        And(dot(h, h) == L * L, fin['L'] == LENGTHS['N']))
             ssum = [sum(us[i][j] for i in range(nb)) for j in range(3)]
             prem = And(*([dot(u, u) == 1 for u in us] + [fin['n'] > 0] +
                          [fin['r'][j] * fin['n'] == -1 * ssum[j] * L for j in range(3)]))
-            ctx.cut('OB[%s]: premises of the obtuse-angle lemma hold for the values computed by the code' % meth, prem)
+            ctx.cut('OB[%s]: premises of the obtuse-angle lemma hold for the values computed by the code' % meth, prem,
+                    meta={'replay': ob_replay(meth, nb)})
             for i in range(nb):
                 pi = ctx.fresh('hdot_%d' % i)
                 ctx.assume(pi == dot(fin['r'], us[i]), kind='def')
@@ -417,11 +490,11 @@ def ground_expected(pr, repo):
 def run(pr, repo):
     ground_expected(pr, repo)
     pr.parallel([(task_bond_distance, ()), (task_orthogonal, ()), (task_add_proton, ()), (task_electron_count, ()), (task_counts, ()), (task_obtuse, ()),
-                 (task_equivariance, ())])
+                 (task_equivariance, ()), (C20.task_rotation, ())])
     pr.assumptions += ['"regular covalent geometry" is encoded as: existing bonds longer than 0.5 A; 2-bond case: cos(angle) > -0.9; '
                        '3-bond case: cos(angle) in (-0.6, 0.2)', 'sequentially built hydrogens (Arg/Asn/Gln NH2, methyl-like cases) and the '
                        '1-bond placements that go through rotate_vector_around_an_axis: at least 0.5 A apart is BOUNDED only (monitor); '
-                       'their orientation independence rests on the C20 contract + the EQ lemmas (hetero groups use Vector.orthogonal, '
+                       'their orientation independence rests on the C20 contract (discharged here too: C20.task_rotation) + the EQ lemmas (hetero groups use Vector.orthogonal, '
                        'which is frame dependent by design)', 'A-REAL; A-TRIG']
     bounded(pr)
 
